@@ -14,6 +14,7 @@ import importlib
 import json
 import multiprocessing
 import os
+import re
 import subprocess
 import sys
 import time as wall
@@ -21,6 +22,7 @@ import time as wall
 VERIF = os.path.dirname(os.path.dirname(os.path.abspath(__file__)))
 KNOWN_FILE = os.path.join(VERIF, 'known_findings.json')
 MAX_VIOLATIONS = 5
+ADDR = re.compile(r'0x[0-9a-fA-F]+|@ ?\d{6,}')
 CASE_TIMEOUT = int(os.environ.get('VERIF_CASE_TIMEOUT', '300'))
 
 _STATE = {}
@@ -75,6 +77,7 @@ def _worker(span):
         for tr in r.get('transitions', ()):
             rep['transitions'].add(tr)
         for v in r['viol']:
+            v['msgs'] = [ADDR.sub('#', str(m)) for m in v['msgs']]
             fid = classify(mod, known, case, v['faults'], v['msgs'])
             if fid is not None:
                 rep['known'][fid] += 1
@@ -86,8 +89,8 @@ def _worker(span):
         # proof of owned nondeterminism: re-run the first cases, demand identical reports
         bad = 0
         for i in range(lo, min(hi, lo + selfcheck)):
-            a = json.dumps(mod.explore_case(cases[i], tier), sort_keys=True, default=repr)
-            b = json.dumps(mod.explore_case(cases[i], tier), sort_keys=True, default=repr)
+            a = ADDR.sub('#', json.dumps(mod.explore_case(cases[i], tier), sort_keys=True, default=repr))
+            b = ADDR.sub('#', json.dumps(mod.explore_case(cases[i], tier), sort_keys=True, default=repr))
             if a != b:
                 bad += 1
         rep['selfcheck'] = bad
